@@ -1080,3 +1080,39 @@ Proof. intros Hm Hb.
   destruct (shell_frame_rejects val E type_error um key_val R pf c args kw Hb) as [e [He Hk]].
   eexists. exists e. split; [destruct api; cbn [BindingShell.api_apply]; [exact Hg|exact Hh]|]. split; assumption. Qed.
 End ApiFrames.
+
+(* ---------- the _get_binding cache ---------- *)
+Section CacheLemmas.
+Variables (obj key B : Type) (key_eqb : key -> key -> bool) (key_of : obj -> key) (sig_of : obj -> sig) (build : sig -> B).
+(* two callables that share a cache slot have the same signature *)
+Hypothesis key_sound : forall a b, key_eqb (key_of a) (key_of b) = true -> sig_of a = sig_of b.
+Notation cache_find := (cache_find key B key_eqb).
+Notation get_binding_cached := (get_binding_cached obj key B key_eqb key_of sig_of build).
+Notation run_history := (run_history obj key B key_eqb key_of sig_of build).
+
+(* every entry is the binding of the signature of whoever can hit it *)
+Definition cache_inv (c : bcache key B) : Prop :=
+  forall k b, In (k, b) c -> forall o, key_eqb (key_of o) k = true -> b = build (sig_of o).
+
+Lemma cache_find_in k c b : cache_find k c = Some b -> exists k', In (k', b) c /\ key_eqb k k' = true.
+Proof. induction c as [|[k' b'] c IH]; cbn [BindingShell.cache_find]; intros H; [discriminate H|].
+  destruct (key_eqb k k') eqn:E.
+  - injection H as ->. exists k'. split; [left; reflexivity|exact E].
+  - destruct (IH H) as [k'' [Hin Hk]]. exists k''. split; [right; exact Hin|exact Hk]. Qed.
+
+Lemma cached_step c o : cache_inv c ->
+  fst (get_binding_cached c o) = build (sig_of o) /\ cache_inv (snd (get_binding_cached c o)).
+Proof. intros Hc. unfold BindingShell.get_binding_cached. destruct (cache_find (key_of o) c) as [b|] eqn:E; cbn [fst snd].
+  - destruct (cache_find_in _ _ _ E) as [k' [Hin Hk]]. split; [exact (Hc k' b Hin o Hk)|exact Hc].
+  - split; [reflexivity|]. intros k b [Heq|Hin] o' Hk.
+    + injection Heq as <- <-. f_equal. symmetry. exact (key_sound o' o Hk).
+    + exact (Hc k b Hin o' Hk). Qed.
+
+Lemma run_history_inv h c : cache_inv c -> cache_inv (run_history c h).
+Proof. revert c. induction h as [|o h IH]; intros c Hc; cbn [BindingShell.run_history]; [exact Hc|].
+  apply IH. exact (proj2 (cached_step c o Hc)). Qed.
+
+(* whatever was bound or wrapped before, in any order: each callable gets the binding of ITS OWN signature *)
+Theorem binding_after_own h o : binding_after obj key B key_eqb key_of sig_of build h o = build (sig_of o).
+Proof. unfold binding_after. apply cached_step. apply run_history_inv. intros k b []. Qed.
+End CacheLemmas.
